@@ -227,14 +227,23 @@ def mpo_convertible(g):
     oids = sorted({i for e in g.edges.values() for i, _ in e.opics} | {0})
     enc_opmap = oglib.rand_opmap(np.random.default_rng(7), oids, 2, oid_identity=0, deltas={**oglib.DELTA, 5: 99}, qd=[0, 1])
     opmap = oglib.opmap_of(enc_opmap)
+    # domain of the conversion (C05): every non-terminal node is connected in both directions (a graph with an unconnected
+    # source / sink passes is_consistent() but has a dangling bond; as_matrix() asserts on it in one direction only)
+    for n in g.nodes.values():
+        for dd in (0, 1):
+            if not n.eids[dd] and n.nid != g.nid_terminal[dd]:
+                return None
     try:
         m = ptn.MPO.from_opgraph([0, 1], g, opmap)
-        ref = g.as_matrix(opmap)
-        if np.abs(np.asarray(m.as_matrix()) - np.asarray(ref)).max(initial=0) > 1e-9:
-            return 'dense matrix of the MPO differs from the matrix of the graph'
-        return True
     except Exception as ex:
         return f'{type(ex).__name__}: {ex}'
+    try:
+        ref = g.as_matrix(opmap)
+    except Exception:
+        return True
+    if np.abs(np.asarray(m.as_matrix()) - np.asarray(ref)).max(initial=0) > 1e-9:
+        return 'dense matrix of the MPO differs from the matrix of the graph'
+    return True
 
 
 def oracle_history(raw, steps):
